@@ -585,6 +585,30 @@ func TestC03_HelperMatrix(t *testing.T) {
 				c03.one(t, c03Case{Entry: "v4", B: append(p, 53, 1, 1, 255)})
 			}
 		}
+		// companion options whose text coincides with a part of the class identifier: each field of the identifier
+		// (split on the separators above), alone, followed by a separator, and followed by a separator and more text
+		// — a parser that relates the two options (prefix, suffix, equality) meets the equal and the nearly equal case
+		fields := strings.FieldsFunc(string(s), func(r rune) bool { return strings.ContainsRune(";:-#/, ", r) })
+		fields = append(fields, string(s))
+		seenD := map[string]bool{}
+		for _, fld := range fields {
+			for _, d := range []string{fld, fld + "-", fld + "-x", "x-" + fld, fld[:len(fld)-1]} {
+				if seenD[d] || len(d) > 60 {
+					continue
+				}
+				seenD[d] = true
+				for _, where := range []int{1, 2, 3} {
+					p := append(v4Prefix(), append([]byte{60, byte(len(s))}, s...)...)
+					if where&1 != 0 {
+						p = append(append(p, 61, byte(len(d))), d...)
+					}
+					if where&2 != 0 {
+						p = append(append(p, 12, byte(len(d))), d...)
+					}
+					c03.one(t, c03Case{Entry: "v4", B: append(p, 53, 1, 1, 255)})
+				}
+			}
+		}
 	}
 	// vendor-specific information (option 17) for every enterprise number the tree knows (harvested from
 	// iana/entid.go at check time) and a few others × sub-option codes 0..64, 255, 65535 × payloads of 0, 1, 16 and
